@@ -928,7 +928,7 @@ func (p *proxyObject) __isCompatibleDescriptor(extensible bool, desc *PropertyDe
 		}
 
 		if desc.IsData() != !current.accessor {
-			return desc.Configurable != FLAG_FALSE
+			return false
 		}
 
 		if desc.IsData() && !current.accessor {
@@ -946,11 +946,15 @@ func (p *proxyObject) __isCompatibleDescriptor(extensible bool, desc *PropertyDe
 		}
 		if desc.IsAccessor() && current.accessor {
 			if !current.configurable {
-				if desc.Setter != nil && desc.Setter.SameAs(current.setterFunc) {
-					return false
+				if desc.Setter != nil {
+					if setter, _ := desc.Setter.(*Object); setter != current.setterFunc {
+						return false
+					}
 				}
-				if desc.Getter != nil && desc.Getter.SameAs(current.getterFunc) {
-					return false
+				if desc.Getter != nil {
+					if getter, _ := desc.Getter.(*Object); getter != current.getterFunc {
+						return false
+					}
 				}
 			}
 		}
